@@ -187,26 +187,27 @@ def rtmpOne (key : Bool) (s : St) (id : Nat) : St :=
 
 def rtmpLoop (key : Bool) (s : St) : St := (s.rtmpSubs.map (·.id)).foldl (rtmpOne key) s
 
+/-- what one iteration of the loop over `httpflvSubSessionSet` does with one subscriber: the units it
+    writes to it and the subscriber's new flags. `n` = index of the current message in the (ghost)
+    publish log. Fresh: cached headers and GOPs first; then the current tag unless the subscriber is
+    (still) waiting for a key frame and this is not one. -/
+def flvOutcome (key : Bool) (g : GopCache.T) (tag : Bytes) (n : Nat) (x : Sub) : List Bytes × Sub :=
+  let pro := prologue g
+  let w := if GopCache.gopCount g > 0 then false else x.waitKey
+  let (ws1, x1) : List Bytes × Sub :=
+    if x.fresh then (pro, { x with fresh := false, waitKey := w, pro := pro, start := if w then none else some n })
+    else ([], x)
+  if x1.waitKey then
+    if key then (ws1 ++ [tag], { x1 with waitKey := false, start := some n }) else (ws1, x1)
+  else (ws1 ++ [tag], x1)
+
 /-- one iteration of the loop over `httpflvSubSessionSet` (pubLog already holds the current message) -/
 def flvOne (key : Bool) (tag : Bytes) (s : St) (id : Nat) : St :=
   match s.getFlv id with
   | none => s
-  | some sub =>
-    let n := s.pubLog.length - 1
-    let s1 :=
-      if sub.fresh then
-        let pro := prologue s.flvGop
-        let w := if GopCache.gopCount s.flvGop > 0 then false else sub.waitKey
-        (s.writeFlvAll sub pro).modFlv id fun x =>
-          { x with fresh := false, waitKey := w, pro := pro, start := if w then none else some n }
-      else s
-    match s1.getFlv id with
-    | none => s1
-    | some sub1 =>
-      if sub1.waitKey then
-        if key then (s1.writeFlv sub1 tag).modFlv id fun x => { x with waitKey := false, start := some n }
-        else s1
-      else s1.writeFlv sub1 tag
+  | some x =>
+    let o := flvOutcome key s.flvGop tag (s.pubLog.length - 1) x
+    (s.writeFlvAll x o.1).modFlv id (fun _ => o.2)
 
 def flvLoop (key : Bool) (tag : Bytes) (s : St) : St := (s.flvSubs.map (·.id)).foldl (flvOne key tag) s
 
@@ -264,6 +265,12 @@ def afterDelIn (s1 : St) (n : Nat) : St :=
             rtmpSubs := s1.rtmpSubs.map (stopWaiting n),
             flvSubs := s1.flvSubs.map (stopWaiting n) }
 
+/-- `AddHttpflvSubSession`: the FLV header is written (after the HTTP / WebSocket response header, which is
+    not modelled) and the session joins the set -/
+def joinFlv (s : St) (id : Nat) (ws : Bool) : St :=
+  let x : Sub := { id := id, waitKey := s.videoCodecSet, ws := ws }
+  St.writeFlv { s with flvSubs := s.flvSubs ++ [x], usedIds := id :: s.usedIds } x Gen.flvHeader
+
 def step (s : St) : Ev → St
   | .addPub =>
     if s.hasIn then s else
@@ -281,14 +288,8 @@ def step (s : St) : Ev → St
   | .join .rtmp id =>
     if s.usedIds.contains id then s else
     { s with rtmpSubs := s.rtmpSubs ++ [{ id := id, waitKey := s.videoCodecSet }], usedIds := id :: s.usedIds }
-  | .join .flv id =>
-    if s.usedIds.contains id then s else
-    St.writeFlv { s with flvSubs := s.flvSubs ++ [{ id := id, waitKey := s.videoCodecSet }], usedIds := id :: s.usedIds }
-      { id := id } Gen.flvHeader
-  | .join .wsflv id =>
-    if s.usedIds.contains id then s else
-    St.writeFlv { s with flvSubs := s.flvSubs ++ [{ id := id, waitKey := s.videoCodecSet, ws := true }], usedIds := id :: s.usedIds }
-      { id := id, ws := true } Gen.flvHeader
+  | .join .flv id => if s.usedIds.contains id then s else joinFlv s id false
+  | .join .wsflv id => if s.usedIds.contains id then s else joinFlv s id true
   | .join .record _ => s
   | .leave .rtmp id => { s with rtmpSubs := s.rtmpSubs.filter (·.id != id) }
   | .leave .flv id => { s with flvSubs := s.flvSubs.filter (·.id != id) }
